@@ -241,3 +241,113 @@ Proof.
     (split; [reflexivity|split; [reflexivity|]]); exists f, g; rewrite Es; repeat split; auto.
   cbn [background_color foreground_color]. destruct (norm && _); auto.
 Qed.
+
+(* ---- document level ---- *)
+From IE Require Import Model.ColorOptDoc Model.FontData.
+
+Lemma opt_cell_flags fs norm cur c c' : opt_cell fs norm cur c = Ok c' -> attr (c_attr c') = attr (c_attr c).
+Proof.
+  intro H. unfold opt_cell in H.
+  destruct (fs (font_page (c_attr c))); [|discriminate]. destruct (f_glyph f (c_ch c)); [|discriminate].
+  destruct (get_shape f l); injection H as <-; reflexivity.
+Qed.
+
+Lemma invisible_block pal fs f0 c :
+  is_visible c = false -> font_page (c_attr c) = 0 -> c_ch c = 32 ->
+  background_color (c_attr c) = DEFAULT_BG ->
+  fonts_ok fs ->
+  cell_block pal fs f0 default_cell = cell_block pal fs f0 (mkCell 32 (mkAttr 0 (foreground_color (c_attr c)) DEFAULT_BG (attr (c_attr c)))).
+Proof.
+  intros Hv Hp Hc Hb Hok. unfold cell_block. cbn [c_attr c_ch default_cell default_attribute font_page].
+  change DEFAULT_FONT_PAGE with 0.
+  destruct (fs 0) as [f|] eqn:Ef; [|reflexivity].
+  destruct (f_glyph f 32) as [g|] eqn:Eg.
+  - apply mapM_ext. intros cy _. apply mapM_ext. intros cx _.
+    destruct (Hok _ _ Ef) as (Hw & Hgl & Hsp).
+    apply blank_pixel; [exact (Hok _ _ Ef)|exact (Hgl _ _ Eg)|exact (Hsp _ Eg)|reflexivity].
+  - reflexivity.
+Qed.
+
+Lemma reflat_opt_block pal fs norm cur c c' f0 :
+  fonts_ok fs -> wf_cell c -> opt_cell fs norm cur c = Ok c' ->
+  cell_block pal fs f0 (reflat c') = cell_block pal fs f0 c.
+Proof.
+  intros Hok Hwf H. pose proof (opt_cell_flags _ _ _ _ _ H) as Hfl.
+  unfold reflat, is_visible. rewrite Hfl. fold (is_visible c).
+  destruct Hwf as [[Hv _]| ->].
+  - rewrite Hv. eapply opt_cell_block; eassumption.
+  - change (is_visible invisible_cell0) with false. cbv iota.
+    rewrite (invisible_block pal fs f0 invisible_cell0 eq_refl eq_refl eq_refl eq_refl Hok). reflexivity.
+Qed.
+
+Lemma opt_row_doc pal fs norm f0 row : forall cur row' cur', fonts_ok fs -> Forall wf_cell row ->
+  opt_row fs norm cur row = Ok (row', cur') ->
+  mapM (cell_block pal fs f0) (map reflat row') = mapM (cell_block pal fs f0) row.
+Proof.
+  induction row as [|c t IH]; intros cur row' cur' Hok Hwf H; cbn [opt_row] in H.
+  - injection H as <- <-. reflexivity.
+  - inversion Hwf as [|? ? Hc Ht]; subst.
+    destruct (opt_cell fs norm cur c) as [c'|] eqn:Ec; cbn [bind] in H; [|discriminate].
+    destruct (opt_row fs norm (c_attr c') t) as [[t' cur'']|] eqn:Et; cbn [bind fst snd] in H; [|discriminate].
+    injection H as <- <-. cbn [map mapM].
+    rewrite (reflat_opt_block pal fs norm cur c c' f0 Hok Hc Ec), (IH _ _ _ Hok Ht Et). reflexivity.
+Qed.
+
+Lemma opt_rows_doc pal fs norm f0 rows : forall cur rows', fonts_ok fs -> Forall (Forall wf_cell) rows ->
+  opt_rows fs norm cur rows = Ok rows' ->
+  mapM (fun row => mapM (cell_block pal fs f0) row) (map (map reflat) rows')
+  = mapM (fun row => mapM (cell_block pal fs f0) row) rows.
+Proof.
+  induction rows as [|r t IH]; intros cur rows' Hok Hwf H; cbn [opt_rows] in H.
+  - injection H as <-. reflexivity.
+  - inversion Hwf as [|? ? Hr Ht]; subst.
+    destruct (opt_row fs norm cur r) as [[r' cur']|] eqn:Er; cbn [bind fst snd] in H; [|discriminate].
+    destruct (opt_rows fs norm cur' t) as [t'|] eqn:Et; cbn [bind] in H; [|discriminate].
+    injection H as <-. cbn [map mapM].
+    rewrite (opt_row_doc pal fs norm f0 r _ _ _ Hok Hr Er), (IH _ _ Hok Ht Et). reflexivity.
+Qed.
+
+Lemma document_render_preserved_proof pal fs norm rows :
+  fonts_ok fs -> Forall (Forall wf_cell) rows -> Forall (Forall (cell_has_glyph fs)) rows ->
+  render_optimised pal fs norm rows = render pal fs rows.
+Proof.
+  intros Hok Hwf Hg. unfold render_optimised.
+  destruct (optimize_total_proof fs norm rows Hg) as [rows' H]. rewrite H.
+  unfold render. destruct (fs 0) as [f0|]; [|reflexivity].
+  apply (opt_rows_doc pal fs norm f0 rows _ _ Hok Hwf H).
+Qed.
+
+(* ---- concrete fonts: the boolean check implies font_ok ---- *)
+Lemma unpack_length h n : length (unpack h n) = h.
+Proof. revert n. induction h as [|h IH]; intro n; cbn [unpack]; [reflexivity|]. rewrite app_length, IH. cbn. lia. Qed.
+
+Lemma unpack_lt h : forall n, Forall (fun r => r < 256) (unpack h n).
+Proof.
+  induction h as [|h IH]; intro n; cbn [unpack]; [constructor|].
+  apply Forall_app. split; [apply IH|]. constructor; [apply N.mod_lt; discriminate|constructor].
+Qed.
+
+Lemma font_ok_b_sound w h glyphs : font_ok_b w h glyphs = true -> font_ok (font_of_data w h glyphs).
+Proof.
+  unfold font_ok_b. intro H.
+  apply andb_true_iff in H. destruct H as [H Hsp]. apply andb_true_iff in H. destruct H as [H Hgl].
+  apply andb_true_iff in H. destruct H as [H1 H8]. apply N.leb_le in H1, H8.
+  unfold font_ok. cbn [f_w f_h f_glyph font_of_data]. split; [lia|]. split.
+  - intros c g Hg. destruct (nth_error glyphs (N.to_nat c)) as [p|] eqn:En; [|discriminate].
+    cbn [option_map] in Hg. injection Hg as <-. unfold glyph_ok. cbn [f_w f_h font_of_data].
+    split; [rewrite unpack_length; apply N2Nat.id|].
+    rewrite forallb_forall in Hgl. specialize (Hgl p (nth_error_In _ _ En)). unfold glyph_ok_b in Hgl.
+    rewrite forallb_forall in Hgl. pose proof (unpack_lt (N.to_nat h) p) as Hlt. rewrite Forall_forall in Hlt.
+    apply Forall_forall. intros r Hr. split; [apply Hlt, Hr|].
+    specialize (Hgl r Hr). unfold row_ok_b in Hgl. apply N.eqb_eq in Hgl. exact Hgl.
+  - intros g Hg. change (N.to_nat 32) with 32%nat in Hg. destruct (nth_error glyphs 32) as [p|] eqn:En; [|discriminate].
+    cbn [option_map] in Hg. injection Hg as <-. apply N.eqb_eq in Hsp. exact Hsp.
+Qed.
+
+Lemma fonts_of_list_ok l :
+  forallb (fun e => let '(_, w, h, g) := e in font_ok_b w h g) l = true -> fonts_ok (fonts_of_list l).
+Proof.
+  induction l as [|[[[p w] h] g] t IH]; intro H; cbn [fonts_of_list]; intros q f Hq; [discriminate|].
+  cbn [forallb] in H. apply andb_true_iff in H. destruct H as [H1 H2].
+  destruct (q =? p); [injection Hq as <-; apply font_ok_b_sound, H1|apply (IH H2 q f Hq)].
+Qed.
